@@ -68,7 +68,7 @@ PROPS = {
         # Props.GoEnvelope: the model's Envelope.check = the translated body of checkEnvelope, for every byte string
         lean_modules=["Liftbridge.Props.C14", "Liftbridge.Props.GoEnvelope"],
         gen_sources=["server/protocol/envelope.go", "server/protocol/envelope.go:gomini:checkEnvelope"],
-        runs=[dict(go_pkg="./server/protocol", test="TestVerifC14"), dict(go_pkg="./server", test="TestVerifC14Server"), dict(go_pkg="./server", test="TestVerifC14ServerSmallLimit")],
+        runs=[dict(go_pkg="./server/protocol", test="TestVerifC14"), dict(go_pkg="./server", test="TestVerifC14Server"), dict(go_pkg="./server", test="TestVerifC14ServerSmallLimit"), dict(go_pkg="./server", test="TestVerifC14BatchWait")],
         level="proof",
         assumptions=[
             "protobuf codec is a parameter: Unmarshal(Marshal m) = m is a hypothesis of unmarshal_marshal (validated by the round-trip oracle on the real codec)",
